@@ -111,6 +111,10 @@ pub struct Case {
     /// plainly allowlisted address is no destination any more
     #[serde(default)]
     pub allow_edit: u8,
+    /// the signer runs with the validator factory vlsd uses by default (OnchainValidatorFactory
+    /// around the simple validator)
+    #[serde(default)]
+    pub onchain: bool,
 }
 
 fn dest_strat() -> impl Strategy<Value = Dest> {
@@ -223,8 +227,8 @@ impl Prop for C09 {
     }
     fn strategy(&self, _tier: Tier) -> BoxedStrategy<Case> {
         let delay = prop_oneof![Just(4u16), Just(6u16), Just(144u16), Just(2016u16), 4u16..2017];
-        (any::<bool>(), any::<bool>(), delay.clone(), delay, prop_oneof![1 => sweep_strat(), 1 => htlc_strat()], prop::bool::weighted(0.12), prop_oneof![5 => Just(0u8), 2 => 1u8..7])
-            .prop_map(|(anchors, outbound, holder_delay, cp_delay, req, carve_out, allow_edit)| Case { anchors, outbound, holder_delay, cp_delay, carve_out: carve_out && matches!(req, Req::Sweep { .. }), allow_edit: if matches!(req, Req::Sweep { .. }) { allow_edit } else { 0 }, req })
+        (any::<bool>(), any::<bool>(), delay.clone(), delay, prop_oneof![1 => sweep_strat(), 1 => htlc_strat()], prop::bool::weighted(0.12), prop_oneof![5 => Just(0u8), 2 => 1u8..7], prop::bool::weighted(0.4))
+            .prop_map(|(anchors, outbound, holder_delay, cp_delay, req, carve_out, allow_edit, onchain)| Case { onchain, anchors, outbound, holder_delay, cp_delay, carve_out: carve_out && matches!(req, Req::Sweep { .. }), allow_edit: if matches!(req, Req::Sweep { .. }) { allow_edit } else { 0 }, req })
             .boxed()
     }
 
@@ -241,7 +245,9 @@ impl Prop for C09 {
             };
             st.class("carve_out_filter");
         }
-        let mut w = World::new(cfg);
+        let mut w = if case.onchain { World::new_onchain(cfg) } else { World::new(cfg) };
+        let lvl = if case.onchain { "onchain-factory" } else { "simple-factory" };
+        st.class(lvl);
         let secp = w.secp.clone();
         let mut spec = ChanSpec::basic(1);
         spec.anchors = case.anchors;
@@ -374,6 +380,7 @@ impl Prop for C09 {
                     SweepKind::Justice => "justice",
                 };
                 st.class(format!("sweep:{}:{}", kname, res.tag()));
+                st.class(format!("{}:sweep:{}", lvl, res.tag()));
                 if std::env::var("VERIF_ERRCLASS").is_ok() && !res.is_ok() {
                     st.class(format!("E:sweep:{}:{}", kname, short_err(&res.err_msg())));
                 }
@@ -538,6 +545,7 @@ impl Prop for C09 {
                 let mname = format!("{:?}", m).split(|c| c == '(' || c == ' ').next().unwrap_or("").to_string();
                 let side = if *counterparty { "cp" } else { "holder" };
                 st.class(format!("htlc:{}:{}:{}", side, mname, res.tag()));
+                st.class(format!("{}:htlc:{}", lvl, res.tag()));
                 if std::env::var("VERIF_ERRCLASS").is_ok() && !res.is_ok() {
                     st.class(format!("E:htlc:{}", short_err(&res.err_msg())));
                 }
